@@ -302,6 +302,63 @@ async fn fs_ring_loop(s: S, inc: u32) -> turmoil::Result {
     }
 }
 
+/// an uninvolved host that keeps one long-lived ring busy (registered ahead of the victims, so
+/// it is the first host ever ticked): every write it submits completes once, with its result,
+/// whatever happens to other hosts in between
+async fn ring_bystander(s: S) -> turmoil::Result {
+    use std::os::fd::AsRawFd;
+    use turmoil::fs::shim::std::fs;
+    use turmoil::io_uring::{opcode, types, AsyncFd, IoUring};
+    let file = fs::OpenOptions::new().read(true).write(true).create(true).open("/r")?;
+    // six rings used in turn: ring descriptors are numbered per host, so whichever ring another
+    // host holds when it is torn down has the number of one of these
+    let mut rings = vec![];
+    for _ in 0..6 {
+        let r = IoUring::new(4)?;
+        let a = AsyncFd::new(RingFd(r.as_raw_fd()));
+        rings.push((r, a));
+    }
+    let mut n = 0u64;
+    loop {
+        n += 1;
+        let (ring, afd) = &mut rings[(n % 6) as usize];
+        let buf = [n as u8; 3];
+        let e = opcode::Write::new(types::Fd(file.as_raw_fd()), buf.as_ptr(), 3).offset(0).build().user_data(n);
+        let pushed = unsafe { ring.submission().push(&e).is_ok() };
+        let submitted = ring.submit().map_err(|e| errk(&e));
+        let mut got: Vec<(u64, i32)> = vec![];
+        let mut waited = "ok".to_string();
+        for _ in 0..8 {
+            {
+                let mut cq = ring.completion();
+                cq.sync();
+                for c in &mut cq {
+                    got.push((c.user_data(), c.result()));
+                }
+            }
+            if !got.is_empty() {
+                break;
+            }
+            match &afd {
+                Ok(a) => match tokio::time::timeout(Duration::from_millis(1), a.readable()).await {
+                    Ok(Err(e)) => {
+                        waited = format!("readable failed {}", errk(&e));
+                        break;
+                    }
+                    _ => {}
+                },
+                Err(e) => {
+                    waited = format!("no AsyncFd {}", errk(e));
+                    break;
+                }
+            }
+        }
+        let t = turmoil::sim_elapsed().unwrap_or_default();
+        s.borrow_mut().bystander.push(format!("u0 ring write {n}: pushed {pushed} submit {submitted:?} wait {waited} completions {got:?} at {t:?}"));
+        tokio::time::sleep(Duration::from_millis(1)).await;
+    }
+}
+
 /// drop guard usable from a `tokio::spawn` (Send) task: counts through a raw pointer to
 /// the single-threaded state (everything runs on one thread)
 struct GuardSend(usize);
@@ -548,8 +605,16 @@ fn run_once(work: Work, steps: usize, crash_at: Option<usize>, bounce_after: Opt
     b.min_message_latency(Duration::from_millis(1)).max_message_latency(Duration::from_millis(1));
     b.tcp_capacity(if matches!(work, Work::TcpNotReading | Work::TcpVictimWrites | Work::TcpVictimDials | Work::TcpPeerStreams) { 2 } else { 4 });
     BURST.with(|b| b.set(work == Work::TcpPeerStreams));
+    if work == Work::FsRing {
+        // ring operations take two ticks, so that a fault falls between submit and completion
+        b.fs().io_latency().min_latency(Duration::from_millis(2)).max_latency(Duration::from_millis(2));
+    }
     let mut sim = b.build();
     let st: S = Rc::new(RefCell::new(St::default()));
+    if work == Work::FsRing {
+        let s0 = st.clone();
+        sim.host("u0", move || ring_bystander(s0.clone()));
+    }
     let sv = st.clone();
     sim.host("v", move || {
         sv.borrow_mut().v_starts[0] += 1;
@@ -749,6 +814,51 @@ fn run_once(work: Work, steps: usize, crash_at: Option<usize>, bounce_after: Opt
         }
     }
     Run { st, violation, obs }
+}
+
+/// The fs / io_uring workload once more, with each run on a brand-new OS thread: state that
+/// turmoil keeps per thread (which host's ring registry is current, for one) starts out empty
+/// there, as in a test process, whereas the workers of the grid above have run thousands of
+/// simulations. The bystander that drives rings (registered first) must log what it logs in
+/// the crash-free twin.
+pub fn fresh_thread_scenario(ch: &mut Chooser, _thorough: bool) -> Exec {
+    let at = 2 + ch.choose("fault_before_step_minus_2", 8);
+    let mode = ch.choose("fault(crash|crash+bounce after 2|bounce without crash)", 3);
+    let one = move |faulty: bool| -> (Vec<String>, Option<(String, String)>) {
+        std::thread::spawn(move || {
+            let run = if !faulty {
+                run_once(Work::FsRing, 12, None, None, None, None, 0, 0, false, false, false)
+            } else {
+                match mode {
+                    0 => run_once(Work::FsRing, 12, Some(at), None, None, None, 0, 0, false, false, false),
+                    1 => run_once(Work::FsRing, 12, Some(at), Some(2), None, None, 0, 0, false, false, false),
+                    _ => run_once(Work::FsRing, 12, None, None, None, Some(at), 0, 0, false, false, false),
+                }
+            };
+            let log = run.st.borrow().bystander.clone();
+            let v = run.violation.as_ref().map(|v| (v.clause.clone(), v.detail.clone()));
+            (log, v)
+        })
+        .join()
+        .unwrap_or_else(|_| (vec![], Some(("panic".into(), "the run on a fresh thread panicked".into()))))
+    };
+    let (log, v) = one(true);
+    let (twin, _) = one(false);
+    let mut violation = v.map(|(c, d)| Violation::new(&c, d));
+    if violation.is_none() && log != twin {
+        let i = twin.iter().zip(log.iter()).position(|(a, b)| a != b).unwrap_or(twin.len().min(log.len()));
+        violation = Some(Violation::new(
+            "bystander-disturbed",
+            format!("fresh OS thread: the log of the uninvolved hosts differs from the crash-free twin run at entry {i}: {:?} vs {:?}", log.get(i), twin.get(i)),
+        ));
+    }
+    let obs = format!("fresh-thread fs+ring workload, fault mode {mode} before step {at}: {} bystander log lines", log.len());
+    if let Some(v) = violation.as_mut() {
+        v.sig = format!("fresh-thread|{}", v.clause);
+        v.scenario = format!("c04-fresh-thread mode={mode} at={at}");
+        v.actions = vec![obs.clone()];
+    }
+    Exec { outcome: Digest::of64(&(obs.clone(), log)), violation, features: vec![] }
 }
 
 pub fn scenario(ch: &mut Chooser, thorough: bool) -> Exec {
